@@ -582,20 +582,6 @@ func (e *Endpoint) readArgs(m *corpus.MethodSpec, args []reflect.Value) (*Call, 
 // ---------------------------------------------------------------------------------------------
 // results
 
-func errInfoFrom(er *common.ErrorResponse) *ErrInfo {
-	if er == nil {
-		return nil
-	}
-	return &ErrInfo{Status: er.Status, Message: er.Message, Code: er.Code, ServiceErrorCode: er.ServiceErrorCode, ExceptionClass: er.ExceptionClass, DocUrl: er.DocUrl}
-}
-
-// Response builds a fresh library ErrorResponse from the description.
-func (ei *ErrInfo) Response() *common.ErrorResponse { return ei.response() }
-
-func (ei *ErrInfo) response() *common.ErrorResponse {
-	return &common.ErrorResponse{Status: ei.Status, Message: ei.Message, Code: ei.Code, ServiceErrorCode: ei.ServiceErrorCode, ExceptionClass: ei.ExceptionClass, DocUrl: ei.DocUrl}
-}
-
 func (e *Endpoint) resultTypes(m *corpus.MethodSpec) (entity corpus.TypeExpr) {
 	if e.Res.Schema != nil {
 		return *e.Res.Schema
@@ -635,7 +621,7 @@ func (e *Endpoint) buildResult(m *corpus.MethodSpec, o *Outcome, outTypes []refl
 		}
 		el.Set(sl)
 		if o.Paging != nil {
-			p.Elem().FieldByName("Paging").Set(reflect.ValueOf(&common.CollectionMetadata{Start: o.Paging.Start, Count: o.Paging.Count, Total: o.Paging.Total}))
+			p.Elem().FieldByName("Paging").Set(reflect.ValueOf(&collectionMetadata{Start: o.Paging.Start, Count: o.Paging.Count, Total: o.Paging.Total}))
 		}
 		if md := p.Elem().FieldByName("Metadata"); md.IsValid() && m.Metadata != nil && o.Metadata != nil {
 			err = e.Set.Build(md, *m.Metadata, o.Metadata)
@@ -798,7 +784,7 @@ func (e *Endpoint) readResult(m *corpus.MethodSpec, outs []reflect.Value, goKeys
 			o.Elements = append(o.Elements, v)
 		}
 		if pg := res.Elem().FieldByName("Paging"); pg.IsValid() && !pg.IsNil() {
-			cm := pg.Interface().(*common.CollectionMetadata)
+			cm := pg.Interface().(*collectionMetadata)
 			o.Paging = &Paging{cm.Start, cm.Count, cm.Total}
 		}
 		if md := res.Elem().FieldByName("Metadata"); md.IsValid() && m.Metadata != nil && err == nil {
